@@ -166,7 +166,9 @@ func (f *StringFormatter) Format(format string, values []value.Primary) (string,
 			}
 
 			if -1 < precision {
-				s = s[:precision]
+				if runes := []rune(s); precision < len(runes) {
+					s = string(runes[:precision])
+				}
 			}
 
 			switch ch {
@@ -180,7 +182,7 @@ func (f *StringFormatter) Format(format string, values []value.Primary) (string,
 		case 'T':
 			rv := reflect.ValueOf(values[placeholderOrder]).Elem().Interface()
 			s = reflect.TypeOf(rv).Name()
-			if -1 < precision {
+			if -1 < precision && precision < len(s) {
 				s = s[:precision]
 			}
 
